@@ -28,13 +28,14 @@ Proof. exact iterator_total_pg. Qed.
 Print Assumptions C01_every_call_returns.
 
 (** the same with the model kernel plugged in (segment geometry, addSievingPrime, EratSmall cross-off over the
-    source's step table, segment loop; Properties_C04): no hypothesis about the sieve is left *)
+    source's step table, segment loop, sieving primes produced by the kernel itself; Properties_C04): no hypothesis
+    about the sieve is left and no specification function occurs inside the model *)
 From PS Require Import Model.CrossOff Proofs.KernelInstP.
 Theorem C01_next_calls_model_kernel : forall l1 maxKB nextDist prevDist maxGap cut,
   16 <= maxKB -> maxKB <= 8192 -> cut_spec cut ->
   forall fuel s h k it' rs,
     s <= MAX64 ->
-    run nextDist prevDist maxGap (pg_primes (erat_model l1 maxKB)) cut fuel (fresh_iter s h) (repeat Next k) = Done (it', rs) ->
+    run nextDist prevDist maxGap (pg_primes (erat_self l1 maxKB)) cut fuel (fresh_iter s h) (repeat Next k) = Done (it', rs) ->
     let P := primes_between s MAX64 in
     rs = map Val (firstn k P) ++ repeat Err (k - length P).
 Proof. exact next_calls_model. Qed.
